@@ -280,18 +280,23 @@ def find_entries(
         cte = f'WITH wordforms(s) AS (VALUES {_vs(forms)})'
         or_norm = 'OR normalized_form IN wordforms' if normalized else ''
         and_rank = '' if search_all_forms else 'AND rank = 0'
+        and_lex = _and_form_lexicons(lexicon_rowids)
         conditions.append(f'''
             e.rowid IN
                (SELECT entry_rowid
                   FROM forms
-                 WHERE (form IN wordforms {or_norm}) {and_rank})
+                 WHERE (form IN wordforms {or_norm}) {and_rank} {and_lex})
         '''.strip())
         params.extend(forms)
+        params.extend(lexicon_rowids)
     if pos:
         conditions.append('e.pos = ?')
         params.append(pos)
     if lexicon_rowids:
         conditions.append(f'e.lexicon_rowid IN ({_qs(lexicon_rowids)})')
+        params.extend(lexicon_rowids)
+        # forms added to the entry by lexicon extensions outside the selection
+        conditions.append(f'f.lexicon_rowid IN ({_qs(lexicon_rowids)})')
         params.extend(lexicon_rowids)
 
     condition = ''
@@ -337,13 +342,15 @@ def find_senses(
         cte = f'WITH wordforms(s) AS (VALUES {_vs(forms)})'
         or_norm = 'OR normalized_form IN wordforms' if normalized else ''
         and_rank = '' if search_all_forms else 'AND rank = 0'
+        and_lex = _and_form_lexicons(lexicon_rowids)
         conditions.append(f'''
             s.entry_rowid IN
                (SELECT entry_rowid
                   FROM forms
-                 WHERE (form IN wordforms {or_norm}) {and_rank})
+                 WHERE (form IN wordforms {or_norm}) {and_rank} {and_lex})
         '''.strip())
         params.extend(forms)
+        params.extend(lexicon_rowids)
     if pos:
         conditions.append('e.pos = ?')
         params.append(pos)
@@ -390,14 +397,16 @@ def find_synsets(
         cte = f'WITH wordforms(s) AS (VALUES {_vs(forms)})'
         or_norm = 'OR normalized_form IN wordforms' if normalized else ''
         and_rank = '' if search_all_forms else 'AND rank = 0'
+        and_lex = _and_form_lexicons(lexicon_rowids, 'f.')
         join = f'''\
           JOIN (SELECT _s.entry_rowid, _s.synset_rowid, _s.entry_rank
                   FROM forms AS f
                   JOIN senses AS _s ON _s.entry_rowid = f.entry_rowid
-                 WHERE (f.form IN wordforms {or_norm}) {and_rank}) AS s
+                 WHERE (f.form IN wordforms {or_norm}) {and_rank} {and_lex}) AS s
             ON s.synset_rowid = ss.rowid
         '''.strip()
         params.extend(forms)
+        params.extend(lexicon_rowids)
         order = 'ORDER BY s.entry_rowid, s.entry_rank'
     if pos:
         conditions.append('ss.pos = ?')
@@ -783,6 +792,13 @@ def get_lexfile(synset_rowid: int) -> Optional[str]:
     if row is not None and row[0] is not None:
         return row[0]
     return None
+
+
+def _and_form_lexicons(lexicon_rowids: Collection[int], prefix: str = '') -> str:
+    # restrict word forms to those defined by the given lexicons, if any
+    if not lexicon_rowids:
+        return ''
+    return f'AND {prefix}lexicon_rowid IN ({_qs(lexicon_rowids)})'
 
 
 def _qs(xs: Collection) -> str: return ','.join('?' * len(xs))
